@@ -424,6 +424,48 @@ REGISTRY = {
     "ctor": (_ctor, ("arr", "dims", "origin", "meta", "nv", "voxel_size")),
 }
 
+DEP_SITES = [("darsia.image.arithmetics", "cv2", "resize"), ("darsia.image.arithmetics", "np", "multiply"),
+             ("darsia.image.image", "np", "stack"), ("darsia.image.image", "copy", "deepcopy"),
+             ("darsia.image.image", "cv2", "cvtColor"), ("darsia.restoration.resize", "cv2", "resize"),
+             ("darsia.restoration.resize", "cv2", "merge"), ("darsia.measure.emd", "cv2", "EMD"),
+             ("darsia.signals.reduction.dimensionreduction", "np", "sum"), ("darsia.measure.integration", "np", "multiply")]
+
+
+class _DepProxy:
+    """Replaces a module-level name (cv2 / np / copy) inside ONE darsia module: everything passes through, the n-th call
+    of one function raises."""
+
+    def __init__(self, real, func, occurrence, exc):
+        self._real, self._func, self._at, self._exc, self._n, self.fired = real, func, occurrence, exc, 0, False
+
+    def __getattr__(self, name):
+        v = getattr(self._real, name)
+        if name != self._func:
+            return v
+
+        def wrapped(*a, **k):
+            i = self._n
+            self._n += 1
+            if i == self._at:
+                self.fired = True
+                if self._exc == "KeyboardInterrupt":
+                    raise KeyboardInterrupt("injected")
+                raise {"MemoryError": MemoryError, "RuntimeError": RuntimeError}[self._exc]("injected dependency failure")
+            return v(*a, **k)
+        return wrapped
+
+
+def install_depfault(f):
+    import importlib
+    mod = importlib.import_module(f["module"])
+    if not hasattr(mod, f["attr"]):
+        raise HarnessError(f"seam missing: {f['module']}.{f['attr']}")
+    real = getattr(mod, f["attr"])
+    proxy = _DepProxy(real, f["func"], f["occurrence"], f["exc"])
+    setattr(mod, f["attr"], proxy)
+    return mod, f["attr"], real, proxy
+
+
 FAULTS_FIRED: list = []
 RETURNS_SELF_RESET = {"reset_origin"}  # documented to reset the receiver's own origin: only bystanders are watched
 
@@ -455,7 +497,8 @@ class C17Engine(Engine):
             "derived from another pool member; distinct = distinct (sequence of call forms, operand-sharing pattern).")
     components_real = ["darsia.Image / ScalarImage / OpticalImage and all registered call forms (see registry in engines/c17_no_mutation.py)",
                        "numpy, OpenCV, skimage, scipy, pyamg"]
-    components_stub = ["name 'pyamg' inside darsia.measure.wasserstein -> proxy whose k-th multigrid set-up completes (drawing from numpy's RNG) and then raises (only in distance calls that carry a fault plan)"]
+    components_stub = ["names cv2 / np / copy inside single darsia modules -> pass-through proxies whose n-th call of one function raises (dependency fault, 8 % of steps)",
+                       "name 'pyamg' inside darsia.measure.wasserstein -> proxy whose k-th multigrid set-up completes (drawing from numpy's RNG) and then raises (only in distance calls that carry a fault plan)"]
     assumptions = ["a call that raises is not a violation (the statement is about operations that return); whether a raising call left its arguments intact is counted as a probe only",
                    "reset_origin(return_image=True) is documented to reset the receiver's own origin: only bystanders are watched for it",
                    "C17.E covers scalar x image combinations for which numpy keeps the raw array's dtype (int and float scalars on float images, non-negative int scalars on unsigned images); float x integer-image and negative-int x unsigned-image change dtype in numpy itself and are outside"]
@@ -571,6 +614,15 @@ class C17Engine(Engine):
             op = self._gen_op(r, desc, sources, lists, step, base_shape)
             if op is None:
                 continue
+            fr = substream(seed, f"faults{step}")
+            if fr.random() < 0.08:
+                rel = {"weight": [0, 1, 3], "stack": [2, 3], "copy": [3], "mul": [3], "rmul": [3], "img_as": [3], "astype": [3],
+                       "to_trichromatic": [3, 4], "to_monochromatic": [3, 4], "resize": [5, 6], "equalize_voxel_size": [5, 6],
+                       "objcall": [3, 5, 7, 8, 9], "distance": [3, 7], "reduce_axis": [8], "AxisReduction": [8], "slice": [8],
+                       "geometry": [9, 3, 1], "model": [3], "time_slice": [3], "superpose": [3]}.get(op["op"])
+                m, a, f = DEP_SITES[fr.choice(rel)] if rel else fr.choice(DEP_SITES)
+                op["depfault"] = {"module": m, "attr": a, "func": f, "occurrence": fr.randint(0, 2),
+                                  "exc": fr.choice(["MemoryError", "RuntimeError", "KeyboardInterrupt"])}
             program.append(op)
         return {"engine": self.name, "seed": seed, "sources": sources, "lists": lists, "program": program}
 
@@ -891,10 +943,17 @@ class C17Engine(Engine):
                     continue
                 before = {n: snap(o) for n, o in pool.items()}
                 rng_before = rng_token()
+                dep = install_depfault(op["depfault"]) if op.get("depfault") else None
                 try:
                     res, exc = fn(pool, op), None
-                except Exception as e:  # noqa
+                except (Exception, KeyboardInterrupt) as e:  # noqa
                     res, exc = None, type(e).__name__
+                finally:
+                    if dep:
+                        setattr(dep[0], dep[1], dep[2])
+                        out.counters["fault:dependency-" + ("raised" if dep[3].fired else "not-reached")] += 1
+                        if dep[3].fired and exc is None:
+                            out.counters["probe:call-returned-despite-dependency-failure"] += 1
                 after = {n: snap(o) for n, o in pool.items()}
                 rng_after = rng_token()
                 out.counters["op:" + form] += 1
@@ -925,7 +984,7 @@ class C17Engine(Engine):
                     out.counters["probe:raised(" + exc + ")"] += 1
                     if changed:
                         out.counters["probe:raising-call-modified-arguments"] += 1
-                    if form in ("mul", "rmul") and self._in_E_domain(pool, op):
+                    if form in ("mul", "rmul") and self._in_E_domain(pool, op) and not (dep and dep[3].fired):
                         out.violate("C17.E", f"{form}:{type(op['b']).__name__}-scalar:raises-{exc}", step, op=op,
                                     dtype=str(pool[op['a']].img.dtype))
                     continue
@@ -1020,6 +1079,11 @@ class C17Engine(Engine):
 
     # ------------------------------------------------------------------ shrinking
     def shrink_candidates(self, case):
+        for j, op in enumerate(case["program"]):
+            if op.get("depfault"):
+                k = copy.deepcopy(case)
+                k["program"][j].pop("depfault")
+                yield k
         n = len(case["program"])
         for j in range(n):
             if n > 1:
